@@ -81,3 +81,51 @@ Example C10_guards_satisfiable :
   print_expr w_all_rules = "!(x < 3) && x+1 > y || (x > 1 && x < 3 || ((x > y || x == y) || !!(!k) == !l))" /\
   print_expr (simplify_bool w_all_rules) = "x >= 3 && x >= y || (x == 2 || ((x >= y) || k == l))".
 Proof. exact guards_satisfiable. Qed.
+
+(* ---------------- the embedded rules, as (pattern, filter, template) over Model_Expr ---------------- *)
+From GC Require Import Model_Claims Model_Rewrites.
+
+Theorem C10_sloppy_len_preserves : forall en x, preserves en (rw_sloppy_len x).
+Proof. exact sloppy_len_preserves. Qed.
+Print Assumptions C10_sloppy_len_preserves.
+
+Theorem C10_empty_string_test_preserves : forall en, env_ok en -> forall s, typeof s = Some TString ->
+  preserves en (rw_empty_ne s) /\ preserves en (rw_empty_gt s) /\ preserves en (rw_empty_eq s) /\ preserves en (rw_empty_le s).
+Proof. exact empty_string_test_preserves. Qed.
+Print Assumptions C10_empty_string_test_preserves.
+
+Theorem C10_string_x_bytes_preserves : forall en, env_ok en -> forall b, typeof b = Some TBytes ->
+  preserves en (rw_xbytes_len b) /\ preserves en (rw_xbytes_eq_empty b) /\ preserves en (rw_xbytes_ne_empty b).
+Proof. intros en Hen b T. exact (conj (xbytes_len_preserves en Hen b T) (conj (xbytes_eq_empty_preserves en Hen b T) (xbytes_ne_empty_preserves en Hen b T))). Qed.
+Print Assumptions C10_string_x_bytes_preserves.
+
+Theorem C10_wrapper_func_index_preserves : forall en s1 s2,
+  preserves en (rw_index_ge s1 s2) /\ preserves en (rw_index_ne s1 s2).
+Proof. intros en s1 s2. exact (conj (index_ge_preserves en s1 s2) (index_ne_preserves en s1 s2)). Qed.
+Print Assumptions C10_wrapper_func_index_preserves.
+
+Theorem C10_unslice_preserves : forall en, env_ok en -> forall s t, typeof s = Some t ->
+  (t = TString \/ t = TInts \/ t = TBytes) -> preserves en (rw_unslice s).
+Proof. exact unslice_preserves. Qed.
+Print Assumptions C10_unslice_preserves.
+
+(* asserted by the repository's own test expectations, nevertheless false *)
+Theorem C10_time_expr_simplify_refuted :
+  exists en t, env_ok en /\ typeof t = Some TTime /\
+    eval en (rw_lhs (rw_unix_milli t)) = Some (RVal (VInt 5), []) /\ eval en (rw_rhs (rw_unix_milli t)) = Some (RVal (VInt 5000000), []) /\
+    eval en (rw_lhs (rw_unix_micro t)) = Some (RVal (VInt 5000000000000000), []) /\ eval en (rw_rhs (rw_unix_micro t)) = Some (RVal (VInt 5000000000), []).
+Proof. exact time_expr_simplify_refuted. Qed.
+Print Assumptions C10_time_expr_simplify_refuted.
+
+Theorem C10_string_concat_simplify_refuted :
+  exists en x y g, env_ok en /\ typeof (rw_lhs (rw_join_glue x y g)) = Some TString /\
+    eval en (rw_lhs (rw_join_glue x y g)) = Some (RVal (VStr "a-b"), [Ev "f" [] (VStr "a"); Ev "g" [] (VStr "b"); Ev "h" [] (VStr "-")]) /\
+    eval en (rw_rhs (rw_join_glue x y g)) = Some (RVal (VStr "a-b"), [Ev "f" [] (VStr "a"); Ev "h" [] (VStr "-"); Ev "g" [] (VStr "b")]).
+Proof. exact string_concat_simplify_refuted. Qed.
+Print Assumptions C10_string_concat_simplify_refuted.
+
+Theorem C10_off_by1_suggestion_differs :
+  exists en x, env_ok en /\ off_by1 (rw_lhs (rw_off_by1 x)) = true /\
+    eval en (rw_lhs (rw_off_by1 x)) = Some (RPanic, []) /\ eval en (rw_rhs (rw_off_by1 x)) = Some (RVal (VInt 7), []).
+Proof. exact off_by1_suggestion_differs. Qed.
+Print Assumptions C10_off_by1_suggestion_differs.
